@@ -295,7 +295,38 @@ def mec_of(out):
     p = len(out)
     if p <= 5:
         return [dag_from_code3(p, c) for c in class_table(p)[signature(out)]]
+    if n_edges(out) > 13:
+        res = mec_by_covered_reversals(out)
+        if res is not None:
+            return res
     return mec_by_orientation(out)
+
+
+def mec_by_covered_reversals(out, limit=20000):
+    """Class members by breadth-first search over covered-edge reversals (Chickering 1995: two DAGs are Markov equivalent iff
+    one is reached from the other by a sequence of reversals of covered edges x -> y, i.e. pa(y) = pa(x) + {x}).  Cost is
+    proportional to the class size, not to 2^edges: the route for dense graphs on 6..8 nodes.  Returns None when the class
+    has more than ``limit`` members."""
+    p = len(out)
+    start = tuple(out)
+    seen = {start}
+    todo = [start]
+    while todo:
+        g = todo.pop()
+        inn = transpose(list(g))
+        for x in range(p):
+            for y in bits(g[x]):
+                if inn[y] == inn[x] | (1 << x):
+                    h = list(g)
+                    h[x] &= ~(1 << y)
+                    h[y] |= 1 << x
+                    t = tuple(h)
+                    if t not in seen:
+                        seen.add(t)
+                        if len(seen) > limit:
+                            return None
+                        todo.append(t)
+    return [list(t) for t in seen]
 
 
 def mec_by_orientation(out):
@@ -319,6 +350,8 @@ def self_check(n=150, seed=0):
         b = sorted(tuple(g) for g in mec_by_orientation(out))
         if a != b:
             raise RuntimeError("oracle self-check: class table and orientation enumeration disagree")
+        if sorted(tuple(g) for g in mec_by_covered_reversals(out)) != a:
+            raise RuntimeError("oracle self-check: covered-edge-reversal search and class table disagree")
         # the extensions of the essential graph are exactly the class
         ess = union_graph([list(g) for g in a], 4)
         c = sorted(tuple(g) for g in extensions(ess))
